@@ -17,26 +17,45 @@ theorem vec_operators (ps : List Param) (a b : List Elem) :
   ⟨rfl, rfl, rfl⟩
 
 /-- element `<` is irreflexive, asymmetric and transitive for every parameter list (memcmp runs and
-    element-wise fields alike) and all contents -/
+    element-wise fields alike) and all contents: it is the conjunction of strict orders, a strict partial order -/
 theorem elem_lt_strict (ps : List Param) :
     (∀ a, elemLt ps a a = false) ∧
     (∀ a b, elemLt ps a b = true → elemLt ps b a = false) ∧
     (∀ a b c, elemLt ps a b = true → elemLt ps b c = true → elemLt ps a c = true) :=
-  ⟨(elemLt_swo ps).irrefl, (elemLt_swo ps).asymm, fun _ _ _ h1 h2 => (elemLt_swo ps).trans h1 h2⟩
+  ⟨elemLt_irrefl ps, elemLt_asymm ps, elemLt_trans ps⟩
 
-/-- vector `<` is irreflexive, asymmetric and transitive on both code paths (whole-buffer comparison and
-    `std::lexicographical_compare` over the elements) -/
-theorem vec_lt_strict (ps : List Param) :
-    (∀ a, vecLt ps a a = false) ∧
-    (∀ a b, vecLt ps a b = true → vecLt ps b a = false) ∧
-    (∀ a b c, vecLt ps a b = true → vecLt ps b c = true → vecLt ps a c = true) :=
-  ⟨(vecLt_swo ps).irrefl, (vecLt_swo ps).asymm, fun _ _ _ h1 h2 => (vecLt_swo ps).trans h1 h2⟩
+/-- vector `<` is irreflexive and asymmetric on both code paths -/
+theorem vec_lt_irrefl_asymm (ps : List Param) :
+    (∀ a, vecLt ps a a = false) ∧ (∀ a b, vecLt ps a b = true → vecLt ps b a = false) :=
+  ⟨vecLt_irrefl ps, vecLt_asymm ps⟩
 
-/-- incomparability under element `<` is transitive (so `<` is a strict *weak* order, which is what makes
-    the lexicographical comparison of element sequences transitive) -/
-theorem elem_incomparable_trans (ps : List Param) (a b c : Elem)
-    (h1 : elemLt ps a b = false) (h2 : elemLt ps b c = false) : elemLt ps a c = false :=
-  (elemLt_swo ps).negtrans a b c h1 h2
+/-- on the whole-buffer (memcmp) path vector `<` is moreover transitive: a strict weak order -/
+theorem vec_lt_trans_fastpath (ps : List Param)
+    (hc : (ps.all (·.ty.lexMemcmp) && isFixedOrPlain ps && storageAl ps == 1) = true) (a b c : List Elem)
+    (h1 : vecLt ps a b = true) (h2 : vecLt ps b c = true) : vecLt ps a c = true :=
+  (vecLt_swo_fastpath ps hc).trans h1 h2
+
+/-- **full statement, FALSE for the code as it is**: transitivity of vector `<` on the element-wise path.
+    `std::lexicographical_compare` over the strict *partial* element order (all fields must be less) is not
+    transitive. Counter-witness on `ContiguousVector<int, int>`, replayed on the real code by the check
+    (KNOWN-FINDING KF-C14-vector-lt-intransitive). The repair (a lexicographical element order) is rejected by
+    the existing test "ContiguousVector of std::string comparison operators / greater with greater size",
+    which requires `[(a,a),(a,a)] > [(b,a)]`. -/
+def VecLtTransitive (ps : List Param) : Prop :=
+  ∀ a b c, vecLt ps a b = true → vecLt ps b c = true → vecLt ps a c = true
+
+def intInt : List Param := [⟨.plain, 4, 1, { lexMemcmp := false }⟩, ⟨.plain, 4, 1, { lexMemcmp := false }⟩]
+
+theorem vec_lt_trans_counter_witness :
+    vecLt intInt [[[1],[5]],[[1],[1]]] [[[2],[3]],[[2],[2]]] = true ∧
+    vecLt intInt [[[2],[3]],[[2],[2]]] [[[3],[4]],[[0],[0]]] = true ∧
+    vecLt intInt [[[1],[5]],[[1],[1]]] [[[3],[4]],[[0],[0]]] = false := by decide +kernel
+
+theorem vec_lt_not_transitive : ¬ VecLtTransitive intInt := by
+  intro h
+  obtain ⟨h1, h2, h3⟩ := vec_lt_trans_counter_witness
+  have := h _ _ _ h1 h2
+  rw [h3] at this; exact absurd this (by simp)
 
 /-- on the element-wise path vector `<` is by definition the lexicographical comparison of the element
     sequences under the element `<` -/
@@ -44,13 +63,5 @@ theorem vec_lt_is_lexicographical (ps : List Param) (a b : List Elem)
     (h : (ps.all (·.ty.lexMemcmp) && isFixedOrPlain ps && storageAl ps == 1) = false) :
     vecLt ps a b = lexBy (elemLt ps) a b := by
   unfold vecLt seqLt; simp [h]
-
-/-- the former witness of intransitivity (`a=[(1,5),(1,1)] b=[(2,3),(2,2)] c=[(3,4),(0,0)]` on `<int,int>`)
-    under the repaired, lexicographical element order -/
-example :
-    let ps : List Param := [⟨.plain, 4, 1, { lexMemcmp := false }⟩, ⟨.plain, 4, 1, { lexMemcmp := false }⟩]
-    vecLt ps [[[1],[5]],[[1],[1]]] [[[2],[3]],[[2],[2]]] = true ∧
-    vecLt ps [[[2],[3]],[[2],[2]]] [[[3],[4]],[[0],[0]]] = true ∧
-    vecLt ps [[[1],[5]],[[1],[1]]] [[[3],[4]],[[0],[0]]] = true := by decide +kernel
 
 end Cntgs.C14
